@@ -134,7 +134,7 @@ def check_otel(batch, out):
 def run(v, tier, seed, replay):
     lean = C.lean_check(["C19"], tier)
     ok, err = C.cargo_build("fh-rep", ["fh-rep"])
-    n = 200 if tier == "quick" else 8000
+    n = 500 if tier == "quick" else 8000
     r = C.Rng(seed * 1000003 + 19)
     cases = []
     if replay:
